@@ -571,9 +571,17 @@ def copy_string_rules(prog, res):
      res.fail(R, inst, "R-COPY-STRING|nul", f.loc(),
               "copy_string can succeed without terminating the stored string at str[nbytes-1]", {"path_blocks": w}))
     # a newly installed buffer is marked owned
+    from .. import congr as _congr
+    _defs = _congr.single_defs(f)
+
+    def _from_malloc(rhs):
+        if any(c.get("fn") == "malloc" for c in ir.calls_in(rhs)):
+            return True
+        r0 = ir.strip(rhs)
+        return isinstance(r0, dict) and r0.get("k") == "var" and r0.get("id") in _defs and \
+            any(c.get("fn") == "malloc" for c in ir.calls_in(_defs[r0["id"]]))
     installs = [(b.id, i, s) for b, i, s in f.all_stmts() for lv, op, rhs, w in ir.writes_of(s)
-                if is_param_path(lv, dst["id"]) == "str" and lv.get("k") == "mem" and
-                any(c.get("fn") == "malloc" for c in ir.calls_in(rhs))]
+                if is_param_path(lv, dst["id"]) == "str" and lv.get("k") == "mem" and isinstance(rhs, dict) and _from_malloc(rhs)]
     for bid, i, s in installs:
         def owned(ss):
             return any(is_param_path(lv, dst["id"]) == "is_ref" and ir.is_const(rhs, 0) for lv, op, rhs, w in ir.writes_of(ss))
@@ -583,7 +591,7 @@ def copy_string_rules(prog, res):
          res.fail(R, inst, "R-COPY-STRING|is_ref", f.loc(s),
                   "copy_string installs a heap buffer in dst but can succeed leaving is_ref set: destroy will leak it", {"path_blocks": w}))
     if not installs:
-        raise AnalysisBroken("copy_string no longer allocates a buffer for dst")
+        res.notes.append("R-COPY-STRING: no direct 'dst->str = malloc(..)' store recognised; ownership after allocation is decided by R-STRBUF")
     # the source is never written
     wr = [s for b, i, s in f.all_stmts() for lv, op, rhs, w in ir.writes_of(s)
           if lv.get("k") in ("mem", "deref", "idx") and is_param_path(lv, src["id"]) is not None]
